@@ -103,6 +103,7 @@ Proof.
                  (flat_map enc32 [len isgmt; len isstd; leap; len times; len types; len abbr] ++ (tail0 ++ rest))).
   { cbn [flat_map]. rewrite app_nil_r. rewrite <- !app_assoc. reflexivity. }
   rewrite Hhdr. clear Hhdr. unfold parse_tzif.
+  change ((84 =? 84) && (90 =? 90) && (105 =? 105) && (102 =? 102)) with true. cbv iota. unfold parse_body.
   change (skipn 16 (repeat 0 16 ++ ?x)) with x.
   change 6%nat with (length [len isgmt; len isstd; leap; len times; len types; len abbr]).
   rewrite unpack_l_render.
